@@ -45,7 +45,8 @@ func init() {
 		Harnesses: []*HarnessSpec{
 			{Name: "H_C10_flush", Tier: "quick", EngineReplay: true, What: "0..2 earlier completed flushes, then Add + Flush interrupted at EVERY file-system operation of the flush (create x4, each gzip header / payload / trailer write, each close; 56..85 crash points per configuration; templates flat+text+metadata and flat only): LOCK deleted, reopen with fresh templates succeeds, searches return no error and no never-added id, every durable document is found, the next flush takes an id above every id in the crash image and overwrites nothing", Covers: []string{"crashed"}},
 			{Name: "H_C10_flush_race", Tier: "quick", EngineReplay: true, What: "explicit Flush racing with the background flush worker over the same frozen memtable (every thread choice at blocking points, <=1 pre-emption at any sync operation or file-system call incl. every write): the image at the instant Flush returned nil is reopened and the acknowledged document is found", Covers: []string{"ran"}},
-			{Name: "H_C10_compact", Tier: "quick", EngineReplay: true, What: "two or three segments, compaction (threshold 2; with three, one segment stays outside) never overwrites a segment file; interrupted at every file-system operation incl. the deletes of the old segments: reopen ok, search ok, no never-added id, ids not reused", Covers: []string{"crashed"}},
+			{Name: "H_C10_damaged", Tier: "quick", What: "two completed flushes, ANY component file of the newest segment missing / empty / cut in half (templates flat+text+metadata and flat only), reopen: Open and search succeed, no never-added id, the next flush overwrites nothing and takes an id above every id in the directory", Covers: []string{"ran"}},
+			{Name: "H_C10_compact", Tier: "quick", EngineReplay: true, What: "two or three segments, compaction in the same session or after a restart (threshold 2; with three, one segment stays outside) never overwrites a segment file; an input file is deleted only once the merged segment loads completely and holds the input documents; interrupted at every file-system operation incl. the deletes of the old segments: reopen ok, search ok, no never-added id, ids not reused", Covers: []string{"crashed"}},
 		},
 		Bounds:      []string{"crash granularity = one file-system call (each binary.Write reaches the file as one write of 1..8 bytes, so the prefixes cover every field boundary); a crash inside one write call (torn write) is outside", "<=2 earlier flushes (0..3 in the property), one compaction of two segments", "default schedule of background workers"},
 		Outside:     []string{"torn writes inside one write call; real deflate block boundaries (framing model)", "durability across a crash in COMPACTION (compaction does not merge — see the C08 known finding — so only the reopen / id clauses are asserted there)", "native replay: crash points cannot be forced on the compiled code without rewriting its os calls; counterexamples are replayed by concrete re-execution of the real SSA in the engine"},
